@@ -153,7 +153,7 @@ Proof.
   - intros (q & m & Hq & Hm & Hx).
     destruct (Bool.eqb q pos) eqn:E.
     + apply Bool.eqb_prop in E. subst q. left. apply In_mig_positions. eauto.
-    + assert (q = negb pos) by (destruct q, pos; cbn in E; congruence). subst q. right. rewrite Hq.
+    + assert (q = negb pos) by (destruct q, pos; cbn in E |- *; congruence). subst q. right. rewrite Hq.
       apply In_mig_positions. eauto.
 Qed.
 
@@ -182,7 +182,8 @@ Proof.
       apply N.eqb_neq in H0. apply N.eqb_neq in H1. rewrite H0, H1.
       rewrite (IH f e i c pos).
       * destruct (role_eqb (ck_role c) (new_role pos)); reflexivity.
-      * repeat split; auto; intros j cj Hj Hcj; apply (Hb (S j) cj); [lia|exact Hcj|lia|exact Hcj].
+      * split; [exact Hn|]. split; [exact Hp|]. split; [exact Hp0|].
+        intros j cj Hj Hcj. apply (Hb (S j) cj); [lia|exact Hcj].
 Qed.
 
 Lemma takeover_first_absent : forall chunks f e,
@@ -261,4 +262,339 @@ Lemma takeover_early : forall cl f e i c pos,
 Proof.
   intros cl f e i c pos Hf Hr. unfold takeover_master.
   rewrite (takeover_first_spec _ f e i c pos Hf), Hr. reflexivity.
+Qed.
+
+(* f is a proxy of some chunk (then there is a first such chunk) or of none *)
+Lemma first_at_dec : forall chunks f,
+  (exists i c pos, first_at chunks f i c pos)
+  \/ (forall j cj, nth_error chunks j = Some cj -> ck_proxy0 cj <> f /\ ck_proxy1 cj <> f).
+Proof.
+  induction chunks as [|c0 rest IH]; intros f.
+  - right. intros [|j] cj H; discriminate.
+  - destruct (N.eqb (ck_proxy0 c0) f) eqn:E0.
+    + left. exists 0%nat, c0, false. apply N.eqb_eq in E0.
+      split; [reflexivity|]. split; [exact E0|]. split; [discriminate|]. intros j cj Hj. lia.
+    + destruct (N.eqb (ck_proxy1 c0) f) eqn:E1.
+      * left. exists 0%nat, c0, true. apply N.eqb_eq in E1. apply N.eqb_neq in E0.
+        split; [reflexivity|]. split; [exact E1|]. split; [intros _; exact E0|]. intros j cj Hj. lia.
+      * apply N.eqb_neq in E0. apply N.eqb_neq in E1.
+        destruct (IH f) as [(i & c & pos & Hn & Hp & Hp0 & Hb)|Hab].
+        -- left. exists (S i), c, pos. split; [exact Hn|]. split; [exact Hp|]. split; [exact Hp0|].
+           intros [|j] cj Hj Hcj.
+           ++ cbn in Hcj. inversion Hcj; subst. auto.
+           ++ apply (Hb j cj); [lia|exact Hcj].
+        -- right. intros [|j] cj Hcj.
+           ++ cbn in Hcj. inversion Hcj; subst. auto.
+           ++ apply (Hab j cj Hcj).
+Qed.
+
+Lemma reepoch_nil e m : reepoch_peers [] e m = m.
+Proof. reflexivity. Qed.
+
+Lemma reepoch_chunk_nil e c : reepoch_chunk [] e c = c.
+Proof.
+  unfold reepoch_chunk. destruct c. cbn.
+  rewrite !(map_ext _ (fun m => m) (reepoch_nil e)), !map_id. reflexivity.
+Qed.
+
+Lemma takeover_absent : forall cl f e,
+  (forall j cj, nth_error (cl_chunks cl) j = Some cj -> ck_proxy0 cj <> f /\ ck_proxy1 cj <> f) ->
+  takeover_master cl f e = mkCluster e (cl_chunks cl) (cl_config cl).
+Proof.
+  intros cl f e H. unfold takeover_master. rewrite (takeover_first_absent _ f e H).
+  f_equal. erewrite map_ext; [apply map_id|]. intros c. apply (reepoch_chunk_nil e c).
+Qed.
+
+(* ---------- entries before / after ---------- *)
+Lemma ck_mig_set_role c r p : ck_mig (set_role c r) p = ck_mig c p.
+Proof. destruct p; reflexivity. Qed.
+Lemma ck_stable_set_role c r p : ck_stable (set_role c r) p = ck_stable c p.
+Proof. destruct p; reflexivity. Qed.
+
+(* exact effect of the takeover on the chunk at index j (no early return) *)
+Lemma takeover_chunk_at : forall cl f e i c pos j cj,
+  first_at (cl_chunks cl) f i c pos -> role_eqb (ck_role c) (new_role pos) = false ->
+  nth_error (cl_chunks cl) j = Some cj ->
+  exists cj', nth_error (cl_chunks (takeover_master cl f e)) j = Some cj'
+    /\ (forall p, ck_mig cj' p = map (reepoch_peers (moved_positions c pos) e) (ck_mig cj p))
+    /\ (forall p, ck_stable cj' p = ck_stable cj p)
+    /\ ck_role cj' = (if Nat.eqb j i then new_role pos else ck_role cj)
+    /\ ck_proxy0 cj' = ck_proxy0 cj /\ ck_proxy1 cj' = ck_proxy1 cj
+    /\ ck_host0 cj' = ck_host0 cj /\ ck_host1 cj' = ck_host1 cj
+    /\ ck_n0 cj' = ck_n0 cj /\ ck_n1 cj' = ck_n1 cj /\ ck_n2 cj' = ck_n2 cj /\ ck_n3 cj' = ck_n3 cj.
+Proof.
+  intros cl f e i c pos j cj Hf Hr Hj.
+  destruct (takeover_nth cl f e i c pos Hf Hr) as (_ & _ & _ & Hnth).
+  eexists. split; [rewrite Hnth, Hj; reflexivity|].
+  split; [intros p; rewrite ck_mig_reepoch_chunk; destruct (Nat.eqb j i); rewrite ?ck_mig_set_role; reflexivity|].
+  split; [intros p; rewrite ck_stable_reepoch_chunk; destruct (Nat.eqb j i); rewrite ?ck_stable_set_role; reflexivity|].
+  destruct (Nat.eqb j i); cbn; repeat split; reflexivity.
+Qed.
+
+Lemma takeover_chunk_at_inv : forall cl f e i c pos j cj',
+  first_at (cl_chunks cl) f i c pos -> role_eqb (ck_role c) (new_role pos) = false ->
+  nth_error (cl_chunks (takeover_master cl f e)) j = Some cj' ->
+  exists cj, nth_error (cl_chunks cl) j = Some cj.
+Proof.
+  intros cl f e i c pos j cj' Hf Hr Hj.
+  destruct (takeover_nth cl f e i c pos Hf Hr) as (_ & _ & _ & Hnth).
+  rewrite Hnth in Hj. destruct (nth_error (cl_chunks cl) j) as [cj|]; [eauto|discriminate].
+Qed.
+
+Lemma Forall2_same_but_epoch_map ps e l : Forall2 same_but_epoch l (map (reepoch_peers ps e) l).
+Proof. induction l; cbn [map]; constructor; auto. apply same_but_epoch_reepoch. Qed.
+
+Lemma Forall2_same_but_epoch_refl l : Forall2 same_but_epoch l l.
+Proof. induction l; constructor; auto. apply same_but_epoch_refl. Qed.
+
+Lemma role_eqb_eq a b : role_eqb a b = true <-> a = b.
+Proof. destruct a, b; cbn; split; intros H; try reflexivity; discriminate. Qed.
+
+(* ---------- 2. ownership ---------- *)
+Lemma takeover_ownership : forall cl f e i c pos,
+  first_at (cl_chunks cl) f i c pos ->
+  length (cl_chunks (takeover_master cl f e)) = length (cl_chunks cl)
+  /\ (forall j cj, nth_error (cl_chunks cl) j = Some cj ->
+        exists cj', nth_error (cl_chunks (takeover_master cl f e)) j = Some cj'
+          /\ (forall p, ck_stable cj' p = ck_stable cj p)
+          /\ (forall p, Forall2 same_but_epoch (ck_mig cj p) (ck_mig cj' p))
+          /\ (forall k, ck_node cj' k = ck_node cj k) /\ (forall b, ck_proxy cj' b = ck_proxy cj b)
+          /\ ck_role cj' = (if Nat.eqb j i then new_role pos else ck_role cj))
+  /\ (forall p, part_proxy_index p (new_role pos) = negb pos)
+  /\ (forall p, part_proxy_index p (ck_role c) = pos ->
+        part_node_index p (new_role pos) = peer_idx (part_node_index p (ck_role c)))
+  /\ (forall p, part_proxy_index p (ck_role c) = negb pos ->
+        part_node_index p (new_role pos) = part_node_index p (ck_role c))
+  /\ (forall k, Nat.leb 2 k = pos -> role_replica (new_role pos) k = true).
+Proof.
+  intros cl f e i c pos Hf.
+  assert (Htab : (forall p, part_proxy_index p (new_role pos) = negb pos)
+    /\ (forall p, part_proxy_index p (ck_role c) = pos ->
+          part_node_index p (new_role pos) = peer_idx (part_node_index p (ck_role c)))
+    /\ (forall p, part_proxy_index p (ck_role c) = negb pos ->
+          part_node_index p (new_role pos) = part_node_index p (ck_role c))
+    /\ (forall k, Nat.leb 2 k = pos -> role_replica (new_role pos) k = true)).
+  { split; [intros p; destruct p, pos; reflexivity|].
+    split; [intros p; destruct p, pos, (ck_role c); cbn; intros H; try reflexivity; discriminate|].
+    split; [intros p; destruct p, pos, (ck_role c); cbn; intros H; try reflexivity; discriminate|].
+    intros k Hk. destruct pos; cbn [new_role role_replica]; [exact Hk|].
+    destruct k as [|[|k]]; [reflexivity|reflexivity|discriminate]. }
+  destruct (role_eqb (ck_role c) (new_role pos)) eqn:Hr.
+  - rewrite (takeover_early cl f e i c pos Hf Hr).
+    split; [reflexivity|]. split; [|exact Htab].
+    intros j cj Hj. exists cj. split; [exact Hj|]. split; [reflexivity|].
+    split; [intros p; apply Forall2_same_but_epoch_refl|]. split; [reflexivity|]. split; [reflexivity|].
+    destruct (Nat.eqb j i) eqn:E; [|reflexivity]. apply Nat.eqb_eq in E. subst j.
+    destruct Hf as (Hn & _). rewrite Hn in Hj. inversion Hj; subst cj. apply role_eqb_eq. exact Hr.
+  - destruct (takeover_nth cl f e i c pos Hf Hr) as (_ & _ & Hlen & _).
+    split; [exact Hlen|]. split; [|exact Htab].
+    intros j cj Hj.
+    destruct (takeover_chunk_at cl f e i c pos j cj Hf Hr Hj)
+      as (cj' & Hj' & Hm & Hs & Hro & Hp0 & Hp1 & _ & _ & H0 & H1 & H2 & H3).
+    exists cj'. split; [exact Hj'|]. split; [exact Hs|].
+    split; [intros p; rewrite Hm; apply Forall2_same_but_epoch_map|].
+    split; [intros k; unfold ck_node; destruct k as [|[|[|k]]]; assumption|].
+    split; [intros b; destruct b; cbn [ck_proxy]; assumption|]. exact Hro.
+Qed.
+
+(* ---------- 3. re-issue ---------- *)
+Lemma reepoch_epoch_e ps e m : In (src_pos m) ps \/ In (dst_pos m) ps -> mm_epoch (ms_meta (reepoch_peers ps e m)) = e.
+Proof.
+  intros H. destruct (reepoch_cases ps e m) as [[-> _]|[_ Hn]]; [reflexivity|].
+  apply orb_false_iff in Hn. destruct Hn as [H1 H2].
+  destruct H as [H|H]; apply pos_mem_In in H; congruence.
+Qed.
+
+Lemma reepoch_pos ps e m :
+  src_pos (reepoch_peers ps e m) = src_pos m /\ dst_pos (reepoch_peers ps e m) = dst_pos m
+  /\ ms_out (reepoch_peers ps e m) = ms_out m /\ ms_ranges (reepoch_peers ps e m) = ms_ranges m.
+Proof. destruct (reepoch_cases ps e m) as [[-> _]|[-> _]]; repeat split; reflexivity. Qed.
+
+(* entry m' of chunk j part p afterwards comes from an entry m of the same list before *)
+Lemma takeover_entry_inv : forall cl f e i c pos j cj' p m',
+  first_at (cl_chunks cl) f i c pos -> role_eqb (ck_role c) (new_role pos) = false ->
+  nth_error (cl_chunks (takeover_master cl f e)) j = Some cj' -> In m' (ck_mig cj' p) ->
+  exists cj m, nth_error (cl_chunks cl) j = Some cj /\ In m (ck_mig cj p)
+               /\ m' = reepoch_peers (moved_positions c pos) e m.
+Proof.
+  intros cl f e i c pos j cj' p m' Hf Hr Hj' Hm'.
+  destruct (takeover_chunk_at_inv cl f e i c pos j cj' Hf Hr Hj') as (cj & Hj).
+  destruct (takeover_chunk_at cl f e i c pos j cj Hf Hr Hj) as (cj2 & Hj2 & Hm & _).
+  rewrite Hj2 in Hj'. inversion Hj'; subst cj2. rewrite Hm in Hm'.
+  apply in_map_iff in Hm'. destruct Hm' as (m & <- & Hin). eauto.
+Qed.
+
+Lemma takeover_entry_fwd : forall cl f e i c pos j cj p m,
+  first_at (cl_chunks cl) f i c pos -> role_eqb (ck_role c) (new_role pos) = false ->
+  nth_error (cl_chunks cl) j = Some cj -> In m (ck_mig cj p) ->
+  exists cj', nth_error (cl_chunks (takeover_master cl f e)) j = Some cj'
+              /\ In (reepoch_peers (moved_positions c pos) e m) (ck_mig cj' p).
+Proof.
+  intros cl f e i c pos j cj p m Hf Hr Hj Hm.
+  destruct (takeover_chunk_at cl f e i c pos j cj Hf Hr Hj) as (cj' & Hj' & Hmig & _).
+  exists cj'. split; [exact Hj'|]. rewrite Hmig. apply in_map. exact Hm.
+Qed.
+
+Lemma takeover_preserves_wf : forall cl f e, mig_wf (cl_chunks cl) -> mig_wf (cl_chunks (takeover_master cl f e)).
+Proof.
+  intros cl f e Hwf.
+  destruct (first_at_dec (cl_chunks cl) f) as [(i & c & pos & Hf)|Hab].
+  2:{ rewrite (takeover_absent cl f e Hab). exact Hwf. }
+  destruct (role_eqb (ck_role c) (new_role pos)) eqn:Hr.
+  { rewrite (takeover_early cl f e i c pos Hf Hr). exact Hwf. }
+  intros j cj' p m' Hj' Hm'.
+  destruct (takeover_entry_inv cl f e i c pos j cj' p m' Hf Hr Hj' Hm') as (cj & m & Hj & Hm & ->).
+  destruct (Hwf j cj p m Hj Hm) as (Hplace & ct & m2 & Hct & Hm2 & Ho & Hrl & Hmeta).
+  destruct (reepoch_pos (moved_positions c pos) e m) as (Hs & Hd & Hout & Hrng).
+  rewrite Hout, Hs, Hd. split; [exact Hplace|].
+  destruct (takeover_entry_fwd cl f e i c pos _ ct _ m2 Hf Hr Hct Hm2) as (ct' & Hct' & Hin2).
+  exists ct', (reepoch_peers (moved_positions c pos) e m2). split; [exact Hct'|]. split; [exact Hin2|].
+  destruct (reepoch_pos (moved_positions c pos) e m2) as (_ & _ & Hout2 & Hrng2).
+  rewrite Hout2, Hrng2, Hrng. split; [exact Ho|]. split; [exact Hrl|]. apply ms_meta_reepoch_eq. exact Hmeta.
+Qed.
+
+Lemma takeover_reissue : forall cl f e i c pos,
+  first_at (cl_chunks cl) f i c pos -> ck_role c <> new_role pos ->
+  (* exact effect on every list of entries: this is what reepoch_peers does *)
+  (forall j cj, nth_error (cl_chunks cl) j = Some cj ->
+     exists cj', nth_error (cl_chunks (takeover_master cl f e)) j = Some cj'
+       /\ forall p, ck_mig cj' p = map (reepoch_peers (moved_positions c pos) e) (ck_mig cj p))
+  (* the entries of every moved part of the failing chunk carry the new epoch *)
+  /\ (forall c' p m, nth_error (cl_chunks (takeover_master cl f e)) i = Some c' ->
+        part_proxy_index p (ck_role c) = pos -> In m (ck_mig c' p) -> mm_epoch (ms_meta m) = e)
+  (* the chunk had both masters on the failing proxy (earlier failover of the partner): both parts are re-issued *)
+  /\ (ck_role c = new_role (negb pos) ->
+      forall c' p m, nth_error (cl_chunks (takeover_master cl f e)) i = Some c' -> In m (ck_mig c' p) ->
+                     mm_epoch (ms_meta m) = e)
+  (* with well-placed twin entries: every entry anywhere whose source or destination is a moved part is re-issued *)
+  /\ (mig_wf (cl_chunks cl) ->
+      forall j cj' p m' q, nth_error (cl_chunks (takeover_master cl f e)) j = Some cj' -> In m' (ck_mig cj' p) ->
+        part_proxy_index q (ck_role c) = pos -> (src_pos m' = (i, q) \/ dst_pos m' = (i, q)) ->
+        mm_epoch (ms_meta m') = e)
+  (* twin consistency is preserved *)
+  /\ (mig_wf (cl_chunks cl) -> mig_wf (cl_chunks (takeover_master cl f e))).
+Proof.
+  intros cl f e i c pos Hf Hne.
+  assert (Hr : role_eqb (ck_role c) (new_role pos) = false).
+  { destruct (role_eqb (ck_role c) (new_role pos)) eqn:E; [|reflexivity]. apply role_eqb_eq in E. contradiction. }
+  assert (Hmoved : forall j cj' p m', nth_error (cl_chunks (takeover_master cl f e)) j = Some cj' -> In m' (ck_mig cj' p) ->
+            forall q m0, moved c pos q = true -> In m0 (ck_mig c q) ->
+              (src_pos m' = src_pos m0 \/ src_pos m' = dst_pos m0 \/ dst_pos m' = src_pos m0 \/ dst_pos m' = dst_pos m0) ->
+              mm_epoch (ms_meta m') = e).
+  { intros j cj' p m' Hj' Hm' q m0 Hq Hm0 Hshare.
+    destruct (takeover_entry_inv cl f e i c pos j cj' p m' Hf Hr Hj' Hm') as (cj & m & Hj & Hm & ->).
+    destruct (reepoch_pos (moved_positions c pos) e m) as (Hs & Hd & _ & _). rewrite Hs, Hd in Hshare.
+    apply reepoch_epoch_e.
+    destruct Hshare as [H|[H|[H|H]]]; [left|left|right|right]; rewrite H;
+      apply In_moved_positions; try exact Hr; exists q, m0; auto. }
+  split.
+  { intros j cj Hj. destruct (takeover_chunk_at cl f e i c pos j cj Hf Hr Hj) as (cj' & Hj' & Hm & _). eauto. }
+  assert (Hpart : forall c' p m, nth_error (cl_chunks (takeover_master cl f e)) i = Some c' ->
+        part_proxy_index p (ck_role c) = pos -> In m (ck_mig c' p) -> mm_epoch (ms_meta m) = e).
+  { intros c' p m' Hc' Hp Hm'.
+    destruct (takeover_entry_inv cl f e i c pos i c' p m' Hf Hr Hc' Hm') as (cj & m & Hj & Hm & ->).
+    destruct Hf as (Hn & _). rewrite Hn in Hj. inversion Hj; subst cj.
+    apply reepoch_epoch_e. left. apply In_moved_positions; [exact Hr|]. exists p, m.
+    split; [unfold moved; rewrite Hp; apply Bool.eqb_reflx|]. auto. }
+  split; [exact Hpart|].
+  split.
+  { intros Hboth c' p m Hc' Hm. apply (Hpart c' p m Hc'); [|exact Hm].
+    rewrite Hboth. destruct p, pos; reflexivity. }
+  split; [|apply takeover_preserves_wf].
+  intros Hwf j cj' p m' q Hj' Hm' Hq Htouch.
+  destruct (takeover_entry_inv cl f e i c pos j cj' p m' Hf Hr Hj' Hm') as (cj & m & Hj & Hm & ->).
+  destruct (reepoch_pos (moved_positions c pos) e m) as (Hs & Hd & _ & _). rewrite Hs, Hd in Htouch.
+  assert (Hmq : moved c pos q = true) by (unfold moved; rewrite Hq; apply Bool.eqb_reflx).
+  destruct (Hwf j cj p m Hj Hm) as (Hplace & ct & m2 & Hct & Hm2 & Ho & Hrl & Hmeta).
+  assert (Hci : nth_error (cl_chunks cl) i = Some c) by (destruct Hf; assumption).
+  apply reepoch_epoch_e.
+  (* either m itself or its twin m2 sits in the list of the moved part (i, q) *)
+  destruct (ms_out m) eqn:Eo.
+  - (* out entry: stored at its source; twin at its destination *)
+    destruct Htouch as [Ht|Ht].
+    + left. apply In_moved_positions; [exact Hr|]. exists q, m. split; [exact Hmq|]. split; [|auto].
+      rewrite Ht in Hplace. inversion Hplace; subst j p. rewrite Hci in Hj. inversion Hj; subst cj. exact Hm.
+    + right. apply In_moved_positions; [exact Hr|]. exists q, m2. split; [exact Hmq|].
+      rewrite Ht in Hct, Hm2. cbn [fst snd] in Hct, Hm2. rewrite Hci in Hct. inversion Hct; subst ct.
+      split; [exact Hm2|]. right. unfold dst_pos. rewrite Hmeta. reflexivity.
+  - destruct Htouch as [Ht|Ht].
+    + left. apply In_moved_positions; [exact Hr|]. exists q, m2. split; [exact Hmq|].
+      rewrite Ht in Hct, Hm2. cbn [fst snd] in Hct, Hm2. rewrite Hci in Hct. inversion Hct; subst ct.
+      split; [exact Hm2|]. left. unfold src_pos. rewrite Hmeta. reflexivity.
+    + right. apply In_moved_positions; [exact Hr|]. exists q, m. split; [exact Hmq|]. split; [|auto].
+      rewrite Ht in Hplace. inversion Hplace; subst j p. rewrite Hci in Hj. inversion Hj; subst cj. exact Hm.
+Qed.
+
+(* ---------- 4. idempotence ---------- *)
+Lemma first_at_after : forall cl f e i c pos,
+  first_at (cl_chunks cl) f i c pos -> role_eqb (ck_role c) (new_role pos) = false ->
+  exists c', first_at (cl_chunks (takeover_master cl f e)) f i c' pos /\ ck_role c' = new_role pos.
+Proof.
+  intros cl f e i c pos Hf Hr. pose proof Hf as (Hn & Hp & Hp0 & Hb).
+  destruct (takeover_chunk_at cl f e i c pos i c Hf Hr Hn) as (c' & Hc' & _ & _ & Hro & Hq0 & Hq1 & _).
+  exists c'. rewrite Nat.eqb_refl in Hro. split; [|exact Hro].
+  split; [exact Hc'|]. split; [destruct pos; cbn [ck_proxy] in *; congruence|].
+  split; [intros Hpos; rewrite Hq0; auto|].
+  intros j cj' Hj Hcj'.
+  destruct (takeover_chunk_at_inv cl f e i c pos j cj' Hf Hr Hcj') as (cj & Hcj).
+  destruct (takeover_chunk_at cl f e i c pos j cj Hf Hr Hcj) as (cj2 & Hcj2 & _ & _ & _ & Hr0 & Hr1 & _).
+  rewrite Hcj2 in Hcj'. inversion Hcj'; subst cj2. rewrite Hr0, Hr1. apply (Hb j cj Hj Hcj).
+Qed.
+
+Lemma takeover_idempotent : forall cl f e e2 i c pos,
+  first_at (cl_chunks cl) f i c pos ->
+  takeover_master (takeover_master cl f e) f e2 = takeover_master cl f e.
+Proof.
+  intros cl f e e2 i c pos Hf.
+  destruct (role_eqb (ck_role c) (new_role pos)) eqn:Hr.
+  - rewrite (takeover_early cl f e i c pos Hf Hr). apply (takeover_early cl f e2 i c pos Hf Hr).
+  - destruct (first_at_after cl f e i c pos Hf Hr) as (c' & Hf' & Hro).
+    apply (takeover_early _ f e2 i c' pos Hf'). apply role_eqb_eq. exact Hro.
+Qed.
+
+(* for an arbitrary address (chunk proxy or not) the chunks are not changed by a second call *)
+Lemma takeover_idempotent_chunks : forall cl f e e2,
+  cl_chunks (takeover_master (takeover_master cl f e) f e2) = cl_chunks (takeover_master cl f e).
+Proof.
+  intros cl f e e2.
+  destruct (first_at_dec (cl_chunks cl) f) as [(i & c & pos & Hf)|Hab].
+  - rewrite (takeover_idempotent cl f e e2 i c pos Hf). reflexivity.
+  - rewrite (takeover_absent cl f e Hab). rewrite takeover_absent; [reflexivity|exact Hab].
+Qed.
+
+(* ---------- 6. migration epochs ---------- *)
+Lemma takeover_epochs : forall cl f e E,
+  epochs_le (cl_chunks cl) E -> E < e ->
+  epochs_le (cl_chunks (takeover_master cl f e)) e
+  /\ (forall j cj cj' p, nth_error (cl_chunks cl) j = Some cj ->
+        nth_error (cl_chunks (takeover_master cl f e)) j = Some cj' ->
+        Forall2 (fun m m' => m' = m \/ (mm_epoch (ms_meta m') = e /\ mm_epoch (ms_meta m) < mm_epoch (ms_meta m')))
+                (ck_mig cj p) (ck_mig cj' p)).
+Proof.
+  intros cl f e E HE Hlt.
+  assert (Hweak : epochs_le (cl_chunks cl) e).
+  { intros j cj p m Hj Hm. specialize (HE j cj p m Hj Hm). lia. }
+  assert (Hrefl : forall l : list mig_store,
+             Forall2 (fun m m' => m' = m \/ (mm_epoch (ms_meta m') = e /\ mm_epoch (ms_meta m) < mm_epoch (ms_meta m'))) l l).
+  { induction l; constructor; auto. }
+  destruct (first_at_dec (cl_chunks cl) f) as [(i & c & pos & Hf)|Hab].
+  2:{ rewrite (takeover_absent cl f e Hab). cbn [cl_chunks]. split; [exact Hweak|].
+      intros j cj cj' p Hj Hj'. rewrite Hj in Hj'. inversion Hj'; subst. apply Hrefl. }
+  destruct (role_eqb (ck_role c) (new_role pos)) eqn:Hr.
+  { rewrite (takeover_early cl f e i c pos Hf Hr). split; [exact Hweak|].
+    intros j cj cj' p Hj Hj'. rewrite Hj in Hj'. inversion Hj'; subst. apply Hrefl. }
+  split.
+  - intros j cj' p m' Hj' Hm'.
+    destruct (takeover_entry_inv cl f e i c pos j cj' p m' Hf Hr Hj' Hm') as (cj & m & Hj & Hm & ->).
+    destruct (reepoch_cases (moved_positions c pos) e m) as [[-> _]|[-> _]].
+    + cbn. lia.
+    + apply (Hweak j cj p m Hj Hm).
+  - intros j cj cj' p Hj Hj'.
+    destruct (takeover_chunk_at cl f e i c pos j cj Hf Hr Hj) as (cj2 & Hj2 & Hm & _).
+    rewrite Hj2 in Hj'. inversion Hj'; subst cj2. rewrite Hm.
+    assert (Hall : forall m, In m (ck_mig cj p) -> mm_epoch (ms_meta m) <= E) by (intros m Hin; apply (HE j cj p m Hj Hin)).
+    induction (ck_mig cj p) as [|m l IH]; cbn [map]; constructor.
+    + destruct (reepoch_cases (moved_positions c pos) e m) as [[-> _]|[-> _]]; [right|left; reflexivity].
+      cbn. specialize (Hall m (or_introl eq_refl)). split; [reflexivity|lia].
+    + apply IH. intros m0 H0. apply Hall. right. exact H0.
 Qed.
